@@ -92,6 +92,10 @@ func refAppend(written []byte, seqs []lz.Seq, lits []byte, k, l int, trailing bo
 		if s.MatchLen > 0 && (s.Offset == 0 || int(s.Offset) > len(written)) {
 			return written, fmt.Errorf("bad offset")
 		}
+		if int64(s.MatchLen) > 1<<27 {
+			// no buffer of the harness holds that much: a sequence of this size cannot have been consumed
+			return written, fmt.Errorf("sequence with MatchLen %d reported as consumed", s.MatchLen)
+		}
 		for i := 0; i < int(s.MatchLen); i++ {
 			written = append(written, written[len(written)-int(s.Offset)])
 		}
@@ -437,6 +441,9 @@ func (e *dExec) step(line string) (out string) {
 			return "cfg " + e.state()
 		}
 		e.ws = e.buf.WindowSize
+		if bs == 0 && e.buf.BufferSize < 2*e.buf.WindowSize {
+			e.find("C07", "default BufferSize smaller than 2*WindowSize", site, fmt.Sprintf("B=%d W=%d", e.buf.BufferSize, e.buf.WindowSize))
+		}
 		e.written, e.delivered = e.written[:0], 0
 		e.cnt.inc("d.reinit")
 		e.invariant(site)
